@@ -12,11 +12,13 @@ def Tree.id : Tree → Nat | .node i _ _ _ _ => i
 
 mutual
 /-- S: what a reader computes — the declarations in scope of each element are the fold of the xmlns
-    declarations on the path root → element over the initial map (`Map.update` = dict.update). -/
-def specObs (ns0 : Map) : Tree → List (Nat × Map × Map)
+    declarations on the path root → element over the initial map (`Map.update` = dict.update); the xmlns an
+    element hands to the converter are exactly its own declarations (`None` when it has none). -/
+def specObs (ns0 : Map) : Tree → List (Nat × Map × Map × Option Xmlns)
   | .node id _ _ decl ch =>
-    (id, Map.update ns0 decl, Map.update ns0 decl) :: specObsList (Map.update ns0 decl) ch
-def specObsList (ns0 : Map) : List Tree → List (Nat × Map × Map)
+    (id, Map.update ns0 decl, Map.update ns0 decl, if decl.isEmpty then none else some decl)
+      :: specObsList (Map.update ns0 decl) ch
+def specObsList (ns0 : Map) : List Tree → List (Nat × Map × Map × Option Xmlns)
   | [] => []
   | t :: ts => specObs ns0 t ++ specObsList ns0 ts
 end
@@ -93,7 +95,7 @@ theorem entered_stack_below (v : Variant) {L : Nat} {base : List Ctx} (hb : Belo
     · subst e; simp
     · have := hb c e; omega
 
-/-- the purge call (elements.py:817) after the children: back to the entered state, exactly -/
+/-- the purge call (elements.py:833) after the children: back to the entered state, exactly -/
 theorem exit_spec (v : Variant) {L : Nat} {base : List Ctx} (ns0 rev0 : Map) {seen : List Nat} {m2 : Mapper}
     (id : Nat) (decl : Xmlns) (hb : Below L base)
     (hr : Ready (L + 1) (entered v ns0 rev0 base id L decl).stack (entered v ns0 rev0 base id L decl).ns
@@ -135,7 +137,7 @@ theorem ready_mono {L : Nat} {base : List Ctx} {ns0 rev0 : Map} {seen seen' : Li
   · exact Or.inl h
   · exact Or.inr ⟨c, h1, h2, h3, h4, hs _ h5⟩
 
-def proj (o : Obs) : Nat × Map × Map := (o.id, o.nsAtKey, o.nsAtAttrs)
+def proj (o : Obs) : Nat × Map × Map × Option Xmlns := (o.id, o.nsAtKey, o.nsAtAttrs, o.ret)
 
 mutual
 theorem visit_spec (v : Variant) : ∀ (t : Tree), SibDistinct t → ∀ (L : Nat) (m : Mapper) (base : List Ctx)
@@ -156,7 +158,7 @@ theorem visit_spec (v : Variant) : ∀ (t : Tree), SibDistinct t → ∀ (L : Na
     refine ⟨?_, ?_⟩
     · rw [h3.1]; exact entered_ready v ns0 rev0 base id L decl seen
     · simp only [List.map_cons, proj]
-      rw [h3.1, ho2]
+      rw [h3.1, h3.2, ho2]
       simp only [h1, entered_ns]
 
 theorem visitList_spec (v : Variant) : ∀ (ts : List Tree), SibDistinctList ts → (ts.map Tree.id).Nodup →
